@@ -6,7 +6,7 @@ package main
 import "strings"
 
 // priority: more specific shapes first.
-var knownPriority = []string{"K118", "K08", "K09", "K10", "N09", "N05", "K13", "K12", "K11", "K06", "K05", "K37", "N08", "N07", "N06", "N04", "N01", "N03", "N10", "N11", "N02", "K04", "K07", "K01", "K02", "K03", "K14", "K38", "K30"}
+var knownPriority = []string{"K118", "N12", "K08", "K09", "K10", "N09", "N05", "K13", "K12", "K11", "K06", "K05", "K37", "N08", "N07", "N06", "N04", "N01", "N03", "N10", "N11", "N02", "K04", "K07", "K01", "K02", "K03", "K14", "K38", "K30"}
 
 func classify(input, output string, c config, v verdict) string {
 	ids := scanKnown(input)
